@@ -430,27 +430,27 @@ func checkC12(tier string) int {
 	wall := time.Since(t0).Seconds()
 	ev := &Evidence{PropertyID: "C12", Tier: tier, Seed: int64(seed), Level: "exploration", WallS: wall, Violations: unknown,
 		Coverage: map[string]any{
-			"evaluations":         m.Runs,
-			"distinct_nontrivial": len(m.Distinct),
-			"rule":                "one evaluation = one generation of a corpus invocation (spec x flags, seeded) under a tape-chosen schedule: map-iteration permutations at the active map-order sites (swarm: one site / a third of the sites / all sites), process history (fresh, 2nd/3rd run in the same process, after another spec, separate CLI process) and simulated clock offset; compared byte-for-byte with the sorted-order fresh run. Distinct+non-trivial = distinct (invocation, applied permutations, history, clock) tuples in which at least one site really received a non-identity order or history/clock differed from the baseline.",
-			"samples":             m.Samples,
-			"simulated_runs":      m.Runs,
-			"runs_per_hour":       int(float64(m.Runs) / wall * 3600),
+			"evaluations":            m.Runs,
+			"distinct_nontrivial":    len(m.Distinct),
+			"rule":                   "one evaluation = one generation of a corpus invocation (spec x flags, seeded) under a tape-chosen schedule: map-iteration permutations at the active map-order sites (swarm: one site / a third of the sites / all sites), process history (fresh, 2nd/3rd run in the same process, after another spec, separate CLI process) and simulated clock offset; compared byte-for-byte with the sorted-order fresh run. Distinct+non-trivial = distinct (invocation, applied permutations, history, clock) tuples in which at least one site really received a non-identity order or history/clock differed from the baseline.",
+			"samples":                m.Samples,
+			"simulated_runs":         m.Runs,
+			"runs_per_hour":          int(float64(m.Runs) / wall * 3600),
 			"cpu_seconds_in_workers": m.CPU,
-			"counters":            m.Counters,
-			"map_order_sites":     siteOut,
-			"sites_total":         len(b.Report.Sites),
-			"sites_executed":      execd,
+			"counters":               m.Counters,
+			"map_order_sites":        siteOut,
+			"sites_total":            len(b.Report.Sites),
+			"sites_executed":         execd,
 			"sites_exercised_with_>=2_keys_and_deviating_order": exercised,
-			"uncontrolled_sites":  b.Report.Uncontrolled,
-			"templates_rendered":  m.Templates,
-			"corpus_specs":        len(corpus),
-			"known_findings_hit":  knownHit,
-			"rewrite_report":      map[string]any{"os_files": b.Report.OSFiles, "time_rewrites": b.Report.TimeRewrites, "rand_files": b.Report.RandFiles, "go_stmts": b.Report.GoStmts, "go_stmts_turned_into_tasks": b.Report.GoRewritten, "blocking_statements_bracketed": b.Report.SyncBracketed, "blocking_operations_not_modelled": b.Report.SyncUnmodelled, "numcpu_rewrites": b.Report.NumCPURewrites, "selects_polled_in_tape_order": b.Report.SelectsPolled, "selects": b.Report.Selects, "per_iteration_loopvar": b.Report.PerIterLoopVar},
-			"determinism_canary":  canaryNote,
-			"real_vs_stub":        "real: goag, generator, specification, cmd/goag (CLI mode), templates, kin-openapi loader, yaml, x/tools/imports, kernel FS under scratch; stub: Go map iteration order inside goag's packages (tape), clock (simulated)",
-			"build_s":             b.BuildS,
-			"repo_tree_hash":      b.TreeHash,
+			"uncontrolled_sites": b.Report.Uncontrolled,
+			"templates_rendered": m.Templates,
+			"corpus_specs":       len(corpus),
+			"known_findings_hit": knownHit,
+			"rewrite_report":     map[string]any{"os_files": b.Report.OSFiles, "time_rewrites": b.Report.TimeRewrites, "rand_files": b.Report.RandFiles, "go_stmts": b.Report.GoStmts, "go_stmts_turned_into_tasks": b.Report.GoRewritten, "blocking_statements_bracketed": b.Report.SyncBracketed, "blocking_operations_not_modelled": b.Report.SyncUnmodelled, "numcpu_rewrites": b.Report.NumCPURewrites, "selects_polled_in_tape_order": b.Report.SelectsPolled, "selects": b.Report.Selects, "per_iteration_loopvar": b.Report.PerIterLoopVar},
+			"determinism_canary": canaryNote,
+			"real_vs_stub":       "real: goag, generator, specification, cmd/goag (CLI mode), templates, kin-openapi loader, yaml, x/tools/imports, kernel FS under scratch; stub: Go map iteration order inside goag's packages (tape), clock (simulated)",
+			"build_s":            b.BuildS,
+			"repo_tree_hash":     b.TreeHash,
 		},
 		Assumptions: []string{
 			"map iteration inside dependencies (kin-openapi, yaml, x/tools) is not tape-controlled; only the separate-process leg can see it",
@@ -535,26 +535,26 @@ func checkC19(tier string) int {
 	exhaustive := tier == "thorough" && enumMerged.Exhaustive
 	ev := &Evidence{PropertyID: "C19", Tier: tier, Seed: int64(seed), Level: "fault_enumeration", WallS: wall, Violations: unknown,
 		Coverage: map[string]any{
-			"evaluations":         m.Runs,
-			"distinct_nontrivial": len(m.Distinct),
-			"rule":                "one evaluation = one history executed on one real directory: generator invocations (8 core = {spec with/without components} x client x api-handler; plus 8 seeded extra spec/flag invocations in long histories), user writes, user damage to goag-owned files, reruns; at most one disk fault per faulted step (crash before/after a call, torn write + crash, short write + ENOSPC, errno) at a chosen os call. Invariants after every step. Core space = every history of length<=3 x every (non-final step, fault kind, call index, torn variant): enumerated completely in the thorough tier (exhaustive_core_space), a prefix per worker in the quick tier; the rest is seeded sampling. Distinct+non-trivial = distinct plans with >=2 steps or a fault that actually fired (plans whose fault was never reached are not counted).",
-			"samples":             m.Samples,
-			"exhaustive":          exhaustive,
+			"evaluations":           m.Runs,
+			"distinct_nontrivial":   len(m.Distinct),
+			"rule":                  "one evaluation = one history executed on one real directory: generator invocations (8 core = {spec with/without components} x client x api-handler; plus 8 seeded extra spec/flag invocations in long histories), user writes, user damage to goag-owned files, reruns; at most one disk fault per faulted step (crash before/after a call, torn write + crash, short write + ENOSPC, errno) at a chosen os call. Invariants after every step. Core space = every history of length<=3 x every (non-final step, fault kind, call index, torn variant): enumerated completely in the thorough tier (exhaustive_core_space), a prefix per worker in the quick tier; the rest is seeded sampling. Distinct+non-trivial = distinct plans with >=2 steps or a fault that actually fired (plans whose fault was never reached are not counted).",
+			"samples":               m.Samples,
+			"exhaustive":            exhaustive,
 			"exhaustive_core_space": exhaustive,
-			"core_space_cases":    enumMerged.Counters["enum_cases"],
-			"core_histories":      enumMerged.Counters["enum_histories"],
-			"simulated_runs":      m.Runs,
-			"simulated_steps":     m.Counters["steps"],
-			"runs_per_hour":       int(float64(m.Runs) / wall * 3600),
-			"faults_fired_by_kind": faults,
-			"faults_fired":        m.Counters["faults_fired"],
-			"probes":              probes,
-			"counters":            m.Counters,
-			"known_findings_hit":  knownHit,
-			"real_vs_stub":        "real: goag.Generate/WriteToFile and everything below, cmd/goag main (CLI-process runs), kernel FS under scratch; stub: package os calls of goag/generator/main routed through a fault-injecting shim; process death = shim dead mode + recovered panic (in-process) or exit 137 (CLI)",
-			"determinism_canary":  "64 seeds re-run in 2x2 extra processes: event-log hashes identical",
-			"build_s":             b.BuildS,
-			"repo_tree_hash":      b.TreeHash,
+			"core_space_cases":      enumMerged.Counters["enum_cases"],
+			"core_histories":        enumMerged.Counters["enum_histories"],
+			"simulated_runs":        m.Runs,
+			"simulated_steps":       m.Counters["steps"],
+			"runs_per_hour":         int(float64(m.Runs) / wall * 3600),
+			"faults_fired_by_kind":  faults,
+			"faults_fired":          m.Counters["faults_fired"],
+			"probes":                probes,
+			"counters":              m.Counters,
+			"known_findings_hit":    knownHit,
+			"real_vs_stub":          "real: goag.Generate/WriteToFile and everything below, cmd/goag main (CLI-process runs), kernel FS under scratch; stub: package os calls of goag/generator/main routed through a fault-injecting shim; process death = shim dead mode + recovered panic (in-process) or exit 137 (CLI)",
+			"determinism_canary":    "64 seeds re-run in 2x2 extra processes: event-log hashes identical",
+			"build_s":               b.BuildS,
+			"repo_tree_hash":        b.TreeHash,
 		},
 		Assumptions: []string{
 			"a step in which a fault fired is never judged (only user files are checked after it); later fault-free steps are",
